@@ -108,6 +108,9 @@ def events_of(st):
         if s not in st.acked:
             evs.append(("acksep",))
             break
+    if live:
+        evs.append(("icmp", 0))      # a transport error reported for P1 must not make the endpoint forget what it has seen
+        evs.append(("jump", "mid"))  # somewhere inside the lifetime (150 s after the first arrival of the oldest live key)
     return evs
 
 
@@ -170,9 +173,16 @@ def apply(st, ev):
         note_wire(st, since)
     elif ev[0] == "jump":
         live = sorted(m["first"] for m in st.model.values() if m["first"] + LIFETIME > w.loop.time())
-        t = live[0] + LIFETIME + (-EPS if ev[1] == "before" else EPS)
+        if not live:
+            return
+        t = live[0] + (150.0 if ev[1] == "mid" else LIFETIME + (-EPS if ev[1] == "before" else EPS))
         if t > w.loop.time():
             w.loop.advance_to(t)
+        note_wire(st, since)
+    elif ev[0] == "icmp":
+        import errno
+        st.srv.receive_error(P1, errno.EHOSTUNREACH)
+        w.loop.settle()
         note_wire(st, since)
     elif ev[0] == "acksep":
         s = next(x for x in st.seps if x not in st.acked)
@@ -241,16 +251,17 @@ def job(arg):
 
 
 def run(tier, seed, jobs):
-    depth = 4 if tier == "quick" else 6
     work = []
     for kind in KINDS:
         for con in (True, False):
             for mid0 in (M - 1, M, 0x7000):
-                if tier == "quick" and not con and mid0 != 0x7000:
-                    continue
-                d = depth
-                if tier == "quick" and kind in ("slow",) and con:
-                    d = 5
+                if tier == "quick":
+                    if not con and mid0 != 0x7000:
+                        continue
+                    # depth 4 where separate responses (own message IDs, timers) make longer histories matter, 3 elsewhere
+                    d = 4 if (con and kind in ("slow", "slowfail")) else 3
+                else:
+                    d = 6 if con else 5
                 work.append((kind, con, mid0, d))
     return core.prun(job, work, jobs)
 
